@@ -237,3 +237,16 @@ prop(
     assumptions=["as C08"],
 )
 
+prop(
+    "C20",
+    module="Aquatic.Props.C20",
+    extra_modules=["Aquatic.Props.Store"],
+    technique="Lean 4 proof (induction over histories: per-peer-id tally = stored peers per id, totals and export lines = reference after the pass; file-system step model: export path holds the old or the new complete file after every prefix of the export steps) + differential runs against the real TorrentMaps with statistics and exports on, and process-abort injection at every probe point of an export",
+    runs=[dict(harness="udpstats", driver="stats", quick=dict(cases=200, maxops=50), thorough=dict(cases=6000, maxops=140))],
+    nontrivial=["id-change", "stop-with-other-id", "expired-peers", "export-changed", "crash-mid-export", "crash-after-create", "old-export-present"],
+    level_text="Theorems: for every history of announces (any event, re-announce from the same address under another peer id, stop under another id than the stored one) and cleaning passes, every in-range random draw: no panic; the statistics worker's tally (exact IndexMap semantics: +1, -1 when present, entry dropped at 0) fed with the PeerAdded / PeerRemoved messages the store emits equals, for every id, the number of stored peers of both families carrying that id; after each pass the reported torrents / peers per family equal the reference's distinct torrents / entries, the export lists exactly the torrents with stored peers, once each, with the reference's seeder / leecher counts. File system: tmp path = path + '.tmp' differs from every path, and after ANY number of the steps create-tmp, append*, rename the export path holds its previous content or exactly the new lines. Tie: real TorrentMaps::announce / clean_and_update_statistics with peer_clients and exports on, the real message channel, the real file; a child process aborted (hook) after create, after each line, after flush, after rename, parent reads the path (also for a path ending in .tmp).",
+    level_note="partial for the crash clause: rename(2) atomicity and BufWriter flushing are trusted / exercised; the statistics worker's loop body is modelled (tallyStep), its thread is not run. Access lists are outside C20's quantifier: a torrent forbidden at clean time is counted in the peer total and its peers leave without PeerRemoved (observation recorded in DESIGN.md).",
+    design_ref="§8 C20",
+    assumptions=["no access list in force during the histories (C20's quantifier)", "a crash is a process abort; power loss / fsync ordering is outside the model"],
+)
+
